@@ -48,6 +48,27 @@ def _optn(v: Optional[int]) -> str:
     return f"(Some {cq_nat(v)})" if v is not None else "None"
 
 
+def with_run_orders(plan: Dict[str, Any], orders: Optional[Dict[Any, Dict[str, Any]]]) -> Dict[str, Any]:
+    """The plan with the set-iteration orders of the step objects that actually ran (run_observed(..., ren=...)["orders"]):
+    every run executes a deep copy of the session's plan, and a copied set need not iterate like the original."""
+    if not orders:
+        return plan
+    steps = []
+    for s in plan["steps"]:
+        o = orders.get(s["sid"], orders.get(str(s["sid"])))
+        if o:
+            s = dict(s)
+            s["req_order"] = o["req"]
+            if s["kind"] == "FG":
+                s["tfs_order"] = o["tfs"]
+            elif s["kind"] == "JOIN":
+                s["left_order"], s["right_order"] = o["left"], o["right"]
+            elif s["kind"] == "TFS":
+                s["right_uuid"] = o["right_uuid"]
+        steps.append(s)
+    return {**plan, "steps": steps}
+
+
 def terms(plan: Dict[str, Any], begin_order: Sequence[int], foot: Dict[int, Tuple[int, List[int]]],
           payload: Optional[Callable[[Dict[str, Any]], Tuple[str, str]]] = None) -> Optional[Tuple[List[str], List[str]]]:
     steps = {s["sid"]: s for s in plan["steps"]}
